@@ -314,10 +314,11 @@ type c11Obj struct {
 	f     map[string]*c11V // explicitly set fields; absent = zero value
 	unkey bool             // built from an unkeyed literal that could not be mapped
 	hv    string           // non-empty: the value was modified in a loop; unset fields are unknown (symbol prefix)
+	base  *c11V            // non-nil: a local copy of this opaque struct value; unset fields are the fields of base
 }
 
 func (o *c11Obj) clone() *c11Obj {
-	n := &c11Obj{typ: o.typ, f: make(map[string]*c11V, len(o.f)), unkey: o.unkey, hv: o.hv}
+	n := &c11Obj{typ: o.typ, f: make(map[string]*c11V, len(o.f)), unkey: o.unkey, hv: o.hv, base: o.base}
 	for k, v := range o.f {
 		n.f[k] = v
 	}
@@ -331,4 +332,12 @@ func (o *c11Obj) names() []string {
 	}
 	sort.Strings(out)
 	return out
+}
+
+// xs1 is the second operand (nil when absent).
+func (v *c11V) xs1() *c11V {
+	if v == nil || len(v.xs) < 2 {
+		return nil
+	}
+	return v.xs[1]
 }
